@@ -61,7 +61,7 @@ FT_TRUST = BASE_TRUST + ["SHA-256 is re-implemented in Lean for execution only (
                          "encoding/json: access lists are compared as decoded map[string]string (decoded by the harness with the chain's own json.Unmarshal)"]
 
 def genesis_runs(tier, seed):
-    profs = ["storage", "plans", "forms", "rns", "notif", "filetree"]
+    profs = ["storage", "plans", "forms", "rns", "notif", "filetree", "msgs"]  # msgs: the oracle feeds, restarted once per history
     if tier == "quick":
         return [{"profile": p, "args": [p, "-seed", str(seed * 10 + k), "-hist", "3", "-steps", "300", "-genesis"]} for k, p in enumerate(profs)]
     return [{"profile": p, "args": [p, "-seed", str(seed * 100 + k * 7 + j), "-hist", "4", "-steps", "400", "-genesis"]} for k, p in enumerate(profs) for j in range(3)]
